@@ -960,3 +960,23 @@ def summarize_block(stmts_, skip=lambda st: False):
                          body=body, decorator_list=[], returns=None, type_comment=None)
     ast.fix_missing_locations(fn)
     return summarize(fn)
+
+
+def field_of(summary, obj, attr):
+    """the value a summarised function leaves in `obj.attr` (last `obj.attr = v`), or None"""
+    e = summary.env.get(obj) if summary.env is not None else None
+    while isinstance(e, ast.Call) and call_name(e) in ("__setattr__", "__mut__", "__set__", "__inplace__"):
+        if call_name(e) == "__setattr__" and isinstance(e.args[1], ast.Constant) and e.args[1].value == attr:
+            return e.args[2]
+        if call_name(e) == "__setattr__":
+            e = e.args[0]
+        else:
+            return None
+    if isinstance(e, ast.IfExp):
+        a, b = ast.Call(func=ast.Name(id="_", ctx=ast.Load()), args=[], keywords=[]), None
+        sa_, sb_ = Summary(), Summary()
+        sa_.env, sb_.env = {obj: e.body}, {obj: e.orelse}
+        a, b = field_of(sa_, obj, attr), field_of(sb_, obj, attr)
+        if a is not None and b is not None:
+            return a if ast.dump(a) == ast.dump(b) else ast.IfExp(test=e.test, body=a, orelse=b)
+    return None
